@@ -475,6 +475,34 @@ def rule_fragile_state(ctx, F):
     ctx.after("P10", "ts_parser__reduce:fragile-node-has-no-state", fn, frag, none, "a node marked fragile gets TS_TREE_STATE_NONE", stop_pts=[pt for pt, n in find(fn, "parent.ptr->dynamic_precedence += dynamic_precedence")])
 
 
+def rule_window_start(ctx, F):
+    """P12: the range-difference veto looks at everything a reused node would cover — from where the node's *padding*
+    begins.  With included ranges the padding of a node spans the excluded gap before it; text that a new range includes
+    inside that gap must veto the reuse.  The first position handed to ts_parser__has_included_range_difference is the
+    byte offset of the reusable node itself (reusable_node_byte_offset), with nothing added."""
+    fn = ctx.need_fn(F, "ts_parser__reuse_node", "P12")
+    if not fn:
+        return
+    calls = [(pt, c) for pt, c in fn.calls() if callee_name(c) == "ts_parser__has_included_range_difference"]
+    key = "reuse_node:veto-window-starts-at-the-padding"
+    if not calls:
+        ctx.bad("P12", key, "ts_parser__reuse_node no longer consults ts_parser__has_included_range_difference")
+        return
+    for pt, c in calls:
+        a = strip(c["a"][1]) if len(c.get("a", [])) > 1 else {}
+        ok = False
+        if a.get("k") == "ref":
+            d = fn.single_def(a["id"])
+            ok = d is not None and M(fn).match("reusable_node_byte_offset(&self->reusable_node)", d)
+        elif a.get("k") == "call":
+            ok = M(fn).match("reusable_node_byte_offset(&self->reusable_node)", a)
+        if ok:
+            ctx.ok("P12", key, "the veto window starts at reusable_node_byte_offset(&self->reusable_node)", sample={"site": fn.loc(pt)})
+        else:
+            ctx.bad("P12", key, "the veto window passed at %s starts at `%s`, not at the reusable node's own offset: text newly included inside the node's padding (the excluded gap before it) does not veto "
+                    "the reuse, and the re-parse skips it" % (fn.loc(pt), show(a)[:60]), {"site": fn.loc(pt)})
+
+
 def rule_examined_char(ctx, F):
     """P11: the bytes a token's recognition depended on include the *whole* character the lexer was looking at when it
     stopped.  ts_lexer_finish reports current_position + the size of that look-ahead character (a constant smaller than
@@ -586,9 +614,13 @@ def run(ctx):
         rule_lookahead_end(ctx, F)
         rule_fragile_state(ctx, F)
         rule_examined_char(ctx, F)
+        rule_window_start(ctx, F)
         # the edit marks (has_changes) every node the reuse test must refuse — incl. column-dependent ones whose column shifted (shared with C10.P2/P3)
         import C10
         C10.rule_subtree_edit(ctx, F)
+        # …and a token's recorded look-ahead is what the lexer examined: an inline leaf stores it only if it fits its bit-field (shared with C02.W4)
+        import C02
+        C02.rule_inline_widths(ctx, F)
     import rsrules
     rsrules.c01_rust(ctx)
     return ctx.finish(
